@@ -116,7 +116,10 @@ Definition apply_jp (o : jp_op) (j : json) : option json :=
   match o with
   | JPAdd p v => match p with [] => Some v | _ => set_path_strict p v j end
   | JPRemove p => remove_path_strict p j
-  | JPReplace p v => match get_path p j with Some _ => set_path_strict p v j | None => None end
+  (* github.com/evanphx/json-patch (used by the fake cluster and by API servers of this
+     vintage): partialDoc.get never fails, so "replace" of a missing member of an
+     existing object succeeds and behaves like "add" *)
+  | JPReplace p v => match p with [] => Some v | _ => set_path_strict p v j end
   end.
 
 (* the whole patch applies or nothing does *)
@@ -213,7 +216,8 @@ Fixpoint parse (ds : list doc) : option (list op) :=
 Inductive verb := VCreate | VGet | VUpdate | VPatch | VDelete.
 Definition call := (verb * key * bytes)%type.          (* verb, object, subresource *)
 
-Inductive err := EAlreadyExists | ENotFound | EPatchFailed | EJqFailed.
+(* [EOther]: any other error text; the model never produces it *)
+Inductive err := EAlreadyExists | ENotFound | EPatchFailed | EJqFailed | EOther.
 
 Definition api_create (c : cluster) (k : key) (obj : json) : cluster * option err :=
   match cl_get k c with Some _ => (c, Some EAlreadyExists) | None => (cl_set k obj c, None) end.
